@@ -4,7 +4,7 @@ from ..rateprobe import run_case, common_buckets, exc_detail
 from ..util import KIND
 
 PROPERTY = "C15"
-TECHNIQUE = "runtime monitoring: shadow execution, bit equality of per-call vs model-level vs attribute-assigned configuration"
+TECHNIQUE = "runtime monitoring: shadow execution, bit equality of per-call vs model-level vs attribute-assigned configuration, after failed calls with per-call options, on copied models"
 LEVEL = "exploration"
 RULE = ("For each game four real executions are compared bit for bit: Model(tau=t, other...).rate(g) vs "
         "Model(tau=t', other...).rate(g, tau=t) for t in {0, 0.0, 1e-9beta, default, beta, 10beta, int 1} and a different "
